@@ -16,9 +16,10 @@ def sh(cmd, cwd=None, env=ENV, timeout=3600):
     return subprocess.run(cmd, cwd=cwd, env=env, capture_output=True, text=True, timeout=timeout)
 ap = argparse.ArgumentParser()
 ap.add_argument("prop"); ap.add_argument("k"); ap.add_argument("--props"); ap.add_argument("--tier", default="quick")
+ap.add_argument("--round", type=int, default=1)
 a = ap.parse_args()
-src = "/tmp/seeds/%s/%s" % (a.prop, a.k)
-dst = os.path.join(ROOT, "seeded", "%s-%s" % (a.prop, a.k))
+src = "/tmp/seeds%s/%s/%s" % ("" if a.round == 1 else str(a.round), a.prop, a.k)
+dst = os.path.join(ROOT, "seeded", "%s-%s%s" % (a.prop, "" if a.round == 1 else "r%d-" % a.round, a.k))
 if not os.path.isdir(src) and os.path.isdir(dst):
     src = dst
 meta = json.load(open(os.path.join(src, "meta.json")))
